@@ -5,7 +5,7 @@
    Time is a Z (nanoseconds of the fake clock).  A server is a script: a list of
    behaviours, one per request that reaches it. *)
 From Coq Require Import QArith Qabs.
-From Oras Require Import Base.Prelude Generated.GC17.
+From Oras Require Import Base.Prelude Base.RetryTypes Generated.GC17.
 Open Scope Z_scope.
 
 (* ------------------------------------------------------------------ *)
@@ -25,7 +25,7 @@ Record beh := mkBeh {
   b_lat : Z                (* time the server takes to answer *)
 }.
 
-Inductive pred_result := PRetry | PStop | PFail.
+(* pred_result, bres, decision: Base/RetryTypes.v (shared with the generated functions) *)
 
 (* how the transport errors look to a predicate *)
 Definition err_flags (o : outcome) : option (bool * bool * bool) :=
@@ -60,8 +60,6 @@ Definition custom_predicate (tbl : list (Z * pred_result)) (dflt err : pred_resu
   | _ => err
   end.
 
-Inductive bres := BRet (d : Z) | BPanic.
-
 Record policy := mkPolicy {
   p_max_retry : Z;
   p_min : Z;
@@ -70,24 +68,14 @@ Record policy := mkPolicy {
   p_backoff : Z -> outcome -> bres
 }.
 
-Inductive decision := DStop | DFail | DWait (d : Z) | DPanic.
-
 Definition clamp (lo hi x : Z) : Z :=
   let x := if x <? lo then lo else x in
   if x >? hi then hi else x.
 
-(* GenericPolicy.Retry *)
+(* GenericPolicy.Retry: Generated.GC17.generated_retry is translated statement by statement
+   from policy.go (attempt bound, predicate, backoff, clamping steps, in source order) *)
 Definition generic_retry (p : policy) (attempt : Z) (o : outcome) : decision :=
-  if attempt >=? p_max_retry p then DStop
-  else match p_pred p o with
-       | PFail => DFail
-       | PStop => DStop
-       | PRetry =>
-         match p_backoff p attempt o with
-         | BPanic => DPanic
-         | BRet x => DWait (clamp (p_min p) (p_max p) x)
-         end
-       end.
+  generated_retry attempt (p_max_retry p) (p_min p) (p_max p) (p_pred p o) (p_backoff p attempt o).
 
 (* ------------------------------------------------------------------ *)
 (* ExponentialBackoff                                                   *)
@@ -96,11 +84,17 @@ Definition two63 : Z := 9223372036854775808.
 Definition two64 : Z := 18446744073709551616.
 Definition wrap64 (z : Z) : Z := ((z + two63) mod two64) - two63.
 
+(* strconv.ParseUint(s, 10, 64) on the digits: None = syntax error (a byte that is not a digit);
+   on overflow of uint64 it returns the maximum AT ONCE, without looking at the rest *)
+Definition max_u64 : Z := two64 - 1.
+Definition cutoff_u64 : Z := two64 / 10 + 1.
 Fixpoint digits_val (s : str) (acc : Z) : option Z :=
   match s with
   | [] => Some acc
   | c :: s' => if ((48 <=? c) && (c <=? 57))%N
-               then digits_val s' (acc * 10 + Z.of_N (c - 48)%N)
+               then if acc >=? cutoff_u64 then Some max_u64
+                    else let n1 := acc * 10 + Z.of_N (c - 48)%N in
+                         if n1 >? max_u64 then Some max_u64 else digits_val s' n1
                else None
   end.
 
@@ -135,14 +129,17 @@ Record eparams := mkE { e_base : Z; e_factor : Q; e_jitter : Q }.
 (* Retry-After of a 429 answer, in seconds (0 = not present / not usable) *)
 Definition retry_after_secs (o : outcome) : Z :=
   match o with
-  | OStatus c h _ => if c =? 429 then match h with [] => 0 | _ => parse_int64 h end else 0
+  | OStatus c h _ => if c =? generated_backoff_retry_after_status
+                     then match h with [] => 0 | _ => parse_int64 h end else 0
   | _ => 0
   end.
 
+(* temp, temp*(1-jitter) and 2*jitter*temp: Generated.GC17.generated_backoff_temp/_a/_n are
+   translated from the arithmetic of the source (float64 read as exact rationals) *)
 Definition exp_temp (e : eparams) (attempt : Z) : Q :=
-  (inject_Z (e_base e) * qpow (e_factor e) attempt)%Q.
-Definition exp_a (e : eparams) (attempt : Z) : Q := (exp_temp e attempt * (1 - e_jitter e))%Q.
-Definition exp_n (e : eparams) (attempt : Z) : Q := ((2 # 1) * e_jitter e * exp_temp e attempt)%Q.
+  generated_backoff_temp (e_base e) (e_factor e) (e_jitter e) attempt.
+Definition exp_a (e : eparams) (attempt : Z) : Q := generated_backoff_a (exp_temp e attempt) (e_jitter e).
+Definition exp_n (e : eparams) (attempt : Z) : Q := generated_backoff_n (exp_temp e attempt) (e_jitter e).
 
 (* [guarded] = true: the repaired source (jitter only when its bound is positive);
    [guarded] = false: the original source, rand.Int64N(n) panics for n <= 0.
@@ -150,7 +147,7 @@ Definition exp_n (e : eparams) (attempt : Z) : Q := ((2 # 1) * e_jitter e * exp_
 Definition exp_backoff_gen (guarded : bool) (oob : Q -> Z) (rnd : Z -> Z)
            (e : eparams) (attempt : Z) (o : outcome) : bres :=
   let ra := retry_after_secs o in
-  if ra >? 0 then BRet (wrap64 (ra * 1000000000))
+  if generated_backoff_retry_after_ok ra then BRet (wrap64 (ra * generated_backoff_retry_after_unit))
   else
     let a := f2i oob (exp_a e attempt) in
     let n := f2i oob (exp_n e attempt) in
@@ -190,8 +187,33 @@ Definition init_state (bd : body) : bstate := mkSt (bdata bd) 0.
 
 Inductive rewind_result := RwOk (st : bstate) | RwNoGetBody | RwGetBodyErr.
 
-(* auth.rewindRequestBody (Body nil or http.NoBody: nothing to do) *)
+(* facts about the request that the rewind logic looks at *)
+Definition body_nil (bd : body) : bool := match bk bd with KNone => true | _ => false end.
+Definition body_nobody (bd : body) : bool := match bk bd with KNoBody => true | _ => false end.
+Definition getbody_nil (bd : body) : bool :=
+  match bk bd with KNone | KNoBody | KOneShot => true | _ => false end.
+Definition getbody_fails (bd : body) (st : bstate) : bool :=
+  match bk bd with KGetBodyErr k => negb (s_calls st <? k)%nat | _ => false end.
+
+Definition apply_rw (c : rw_class) (bd : body) (st : bstate) : rewind_result :=
+  match c with
+  | RcKeep => RwOk st
+  | RcFresh => RwOk (mkSt (bdata bd) (S (s_calls st)))
+  | RcNoGetBody => RwNoGetBody
+  | RcGetBodyErr => RwGetBodyErr
+  end.
+
+(* auth.rewindRequestBody: Generated.GC17.generated_auth_rewind is translated from the source *)
 Definition rewind (bd : body) (st : bstate) : rewind_result :=
+  apply_rw (generated_auth_rewind (body_nil bd) (body_nobody bd) (getbody_nil bd) (getbody_fails bd st)) bd st.
+
+(* the rewind block of Transport.RoundTrip: Generated.GC17.generated_rt_rewind (no special case
+   for http.NoBody -- a non-nil Body without GetBody is never retried) *)
+Definition rt_rewind (bd : body) (st : bstate) : rewind_result :=
+  apply_rw (generated_rt_rewind (body_nil bd) (body_nobody bd) (getbody_nil bd) (getbody_fails bd st)) bd st.
+
+(* the same by body kind *)
+Definition rewind_closed (bd : body) (st : bstate) : rewind_result :=
   match bk bd with
   | KNone | KNoBody => RwOk st
   | KReplay => RwOk (mkSt (bdata bd) (S (s_calls st)))
@@ -199,13 +221,10 @@ Definition rewind (bd : body) (st : bstate) : rewind_result :=
   | KGetBodyErr k => if (s_calls st <? k)%nat then RwOk (mkSt (bdata bd) (S (s_calls st)))
                      else RwGetBodyErr
   end.
-
-(* the rewind of Transport.RoundTrip: the same, except that it has no special case for
-   http.NoBody -- a non-nil Body without GetBody is never retried *)
-Definition rt_rewind (bd : body) (st : bstate) : rewind_result :=
+Definition rt_rewind_closed (bd : body) (st : bstate) : rewind_result :=
   match bk bd with
   | KNoBody => RwNoGetBody
-  | _ => rewind bd st
+  | _ => rewind_closed bd st
   end.
 
 Definition take_body (r : option nat) (s : str) : str * str :=
@@ -225,6 +244,7 @@ Inductive result :=
 | RResp (code : Z) (chal : N)
 | RErr (is_net timeout temporary : bool)   (* the transport's error *)
 | RPredErr                (* the error a predicate returned for a response *)
+| RTokenResp (code : Z)   (* the token service answered with a status other than 200 *)
 | RCtx                    (* the context's error *)
 | RPanic                  (* the policy panicked *)
 | RNotRewindable | RGetBodyFailed   (* auth.rewindRequestBody errors *)
@@ -366,13 +386,21 @@ Record auth_out := mkAuth {
   a_res : result; a_first : list event; a_second : list event; a_third : list event; a_time : Z
 }.
 
+(* the statuses the code compares with are read from the sources (Generated.GC17.*_status_cmps:
+   the StatusCode comparisons of each function, in source order) *)
+Definition cmp_status (l : list (Z * Z)) (i : nat) : Z := snd (nth i l (0, -1)).
+Definition challenge_status : Z := cmp_status auth_do_status_cmps 0.      (* Do: first answer *)
+Definition challenge_status_2 : Z := cmp_status auth_do_status_cmps 1.    (* Do: answer to the cached token *)
+Definition token_ok_status : Z := cmp_status fetch_distribution_status_cmps 0.
+Definition accepted_status : Z := cmp_status blob_push_status_cmps 0.
+
 (* a 401 answer carrying a Basic or Bearer challenge *)
 Definition challenged (r : result) : bool :=
-  match r with RResp c ch => (c =? 401) && recognised ch | _ => false end.
+  match r with RResp c ch => (c =? challenge_status) && recognised ch | _ => false end.
 Definition bearer_challenged (r : result) : bool :=
-  match r with RResp c ch => (c =? 401) && (ch =? 2)%N | _ => false end.
+  match r with RResp c ch => (c =? challenge_status) && (ch =? 2)%N | _ => false end.
 Definition unauthorized (r : result) : bool :=
-  match r with RResp c _ => c =? 401 | _ => false end.
+  match r with RResp c _ => c =? challenge_status_2 | _ => false end.
 
 Definition rewind_error (rw : rewind_result) : result :=
   match rw with RwGetBodyErr => RGetBodyFailed | _ => RNotRewindable end.
@@ -408,6 +436,113 @@ Definition plain_do_at (p : policy) (cn : cancel) (bd : body) (sc : list beh) (t
   let o := round_trip p cn bd (init_state bd) sc t0 in
   mkAuth (o_res o) (o_trace o) [] [] (o_time o).
 
+(* ------------------------------------------------------------------ *)
+(* The token request of a Bearer challenge.  fetchDistributionToken (GET, no body) and
+   fetchOAuth2Token (POST, form body from a strings.Reader: replayable) send it with
+   Client.send, i.e. through the same retrying transport; any answer but 200 is an error of
+   Do.  [tb]: the token request's body, [tsc]: the token service's script. *)
+
+Definition no_body : body := mkBody KNone [].
+Definition accepted (r : result) : bool := match r with RResp c _ => c =? accepted_status | _ => false end.
+
+Record tok_out := mkTok {
+  k_ok : bool; k_res : result; k_trace : list event; k_time : Z; k_script : list beh
+}.
+
+Definition token_ok (r : result) : bool := match r with RResp c _ => c =? token_ok_status | _ => false end.
+Definition token_error (r : result) : result :=
+  match r with RResp c _ => RTokenResp c | _ => r end.
+
+Definition fetch_token (p : policy) (cn : cancel) (tb : body) (tsc : list beh) (t0 : Z) : tok_out :=
+  let o := round_trip p cn tb (init_state tb) tsc t0 in
+  mkTok (token_ok (o_res o)) (token_error (o_res o)) (o_trace o) (o_time o) (o_script o).
+
+Record authk_out := mkAuthK {
+  ak_res : result; ak_first : list event; ak_token : list event; ak_second : list event; ak_time : Z
+}.
+
+(* auth.Client.Do, empty token cache, with the token request spelled out: first send; on a
+   Basic or Bearer challenge: (Bearer) fetch the token -- its failure ends the call --, then
+   rewind the body (after the fetch, as in the source), then send again *)
+Definition auth_do_tok_at (p : policy) (cn : cancel) (bd : body) (sc : list beh)
+           (tb : body) (tsc : list beh) (t0 : Z) : authk_out :=
+  let o1 := round_trip p cn bd (init_state bd) sc t0 in
+  if challenged (o_res o1) then
+    let k := if bearer_challenged (o_res o1) then fetch_token p cn tb tsc (o_time o1)
+             else mkTok true (o_res o1) [] (o_time o1) tsc in
+    if k_ok k then
+      match rewind bd (o_st o1) with
+      | RwOk st2 =>
+        let o2 := round_trip p cn bd st2 (o_script o1) (k_time k) in
+        mkAuthK (o_res o2) (o_trace o1) (k_trace k) (o_trace o2) (o_time o2)
+      | rw => mkAuthK (rewind_error rw) (o_trace o1) (k_trace k) [] (k_time k)
+      end
+    else mkAuthK (k_res k) (o_trace o1) (k_trace k) [] (k_time k)
+  else mkAuthK (o_res o1) (o_trace o1) [] [] (o_time o1).
+
+Definition auth_do_tok (p : policy) (cn : cancel) (bd : body) (sc : list beh)
+           (tb : body) (tsc : list beh) : authk_out :=
+  auth_do_tok_at p cn bd sc tb tsc 0.
+
+(* one send through the transport, no challenge handling (a request that already carries
+   Authorization, or a client that is not an auth client) *)
+Definition plain_tok_at (p : policy) (cn : cancel) (bd : body) (sc : list beh) (t0 : Z) : authk_out :=
+  let o := round_trip p cn bd (init_state bd) sc t0 in
+  mkAuthK (o_res o) (o_trace o) [] [] (o_time o).
+
+(* auth.Client.Do with a warm Bearer cache (a token cached under the scope key the challenge
+   leads to, none under the request's own key), token request spelled out: first send; on a
+   Bearer challenge rewind and re-send with the cached token; if that is refused (any 401) fetch
+   a fresh token -- its failure ends the call --, rewind, send a third time.  A Basic challenge
+   is answered as with an empty cache. *)
+Record authw_out := mkAuthW {
+  aw_res : result; aw_first : list event; aw_second : list event; aw_token : list event;
+  aw_third : list event; aw_time : Z
+}.
+
+Definition auth_do_tokw_at (p : policy) (cn : cancel) (bd : body) (sc : list beh)
+           (tb : body) (tsc : list beh) (t0 : Z) : authw_out :=
+  let o1 := round_trip p cn bd (init_state bd) sc t0 in
+  if challenged (o_res o1) then
+    match rewind bd (o_st o1) with
+    | RwOk st2 =>
+      let o2 := round_trip p cn bd st2 (o_script o1) (o_time o1) in
+      if bearer_challenged (o_res o1) && unauthorized (o_res o2) then
+        let k := fetch_token p cn tb tsc (o_time o2) in
+        if k_ok k then
+          match rewind bd (o_st o2) with
+          | RwOk st3 =>
+            let o3 := round_trip p cn bd st3 (o_script o2) (k_time k) in
+            mkAuthW (o_res o3) (o_trace o1) (o_trace o2) (k_trace k) (o_trace o3) (o_time o3)
+          | rw => mkAuthW (rewind_error rw) (o_trace o1) (o_trace o2) (k_trace k) [] (k_time k)
+          end
+        else mkAuthW (k_res k) (o_trace o1) (o_trace o2) (k_trace k) [] (k_time k)
+      else mkAuthW (o_res o2) (o_trace o1) (o_trace o2) [] [] (o_time o2)
+    | rw => mkAuthW (rewind_error rw) (o_trace o1) [] [] [] (o_time o1)
+    end
+  else mkAuthW (o_res o1) (o_trace o1) [] [] [] (o_time o1).
+
+Definition authk_attempts (a : authk_out) : list (Z * str) :=
+  attempts (ak_first a) ++ attempts (ak_second a).
+
+(* blobStore.Push / Mount fallback with the token requests spelled out (empty token cache): the
+   POST may be challenged and fetch a token; the PUT re-uses the POST's Authorization if it had
+   one, otherwise it is an ordinary request of the auth client and may fetch a token itself; the
+   token service's script goes on where the POST's fetch left it *)
+Record pushk_out := mkPushK { uk_res : result; uk_post : authk_out; uk_put : option authk_out; uk_time : Z }.
+
+Definition blob_push_tok (authc : bool) (p : policy) (cn : cancel) (bd : body) (sc : list beh)
+           (tb : body) (tsc : list beh) : pushk_out :=
+  let post := if authc then auth_do_tok_at p cn no_body sc tb tsc 0 else plain_tok_at p cn no_body sc 0 in
+  if accepted (ak_res post) then
+    let sc' := skipn (length (authk_attempts post)) sc in
+    let tsc' := skipn (length (attempts (ak_token post))) tsc in
+    let authed := match attempts (ak_second post) with [] => false | _ => true end in
+    let put := if authc && negb authed then auth_do_tok_at p cn bd sc' tb tsc' (ak_time post)
+               else plain_tok_at p cn bd sc' (ak_time post) in
+    mkPushK (ak_res put) post (Some put) (ak_time put)
+  else mkPushK (ak_res post) post None (ak_time post).
+
 Definition auth_attempts (a : auth_out) : list (Z * str) :=
   attempts (a_first a) ++ attempts (a_second a) ++ attempts (a_third a).
 
@@ -417,9 +552,7 @@ Definition auth_attempts (a : auth_out) : list (Z * str) :=
    client.  Empty token cache. *)
 Record push_out := mkPush { u_res : result; u_post : auth_out; u_put : option auth_out; u_time : Z }.
 
-Definition no_body : body := mkBody KNone [].
 
-Definition accepted (r : result) : bool := match r with RResp c _ => c =? 202 | _ => false end.
 
 (* [warm0]: the token cache already holds a token for the push's own scope key, so the POST
    carries Authorization from its first send (the normal state within a push session) *)
@@ -452,6 +585,68 @@ Definition manifest_push_body (is_auth_client : bool) (bd : body) : body :=
   end.
 
 (* ------------------------------------------------------------------ *)
+(* A stateless specification of one send, for a body that can always be replayed and a context
+   that never ends: walk the script by index; answer i is read off the script, the body received
+   is the prefix the server reads of the WHOLE body, the pause is the policy's decision for
+   (i, answer i); stop at the first answer the policy does not want retried.  No request state,
+   no script threading, no trace accumulator. *)
+Fixpoint spec_run (p : policy) (bd : body) (sc : list beh) (t : Z) (i : nat) (fuel : nat)
+  : result * Z * list (Z * str) :=
+  match fuel with
+  | O => (RFuel, t, [])
+  | S fuel' =>
+    let bh := nth i sc default_beh in
+    let got := fst (take_body (b_read bh) (bdata bd)) in
+    let t1 := t + b_lat bh in
+    match generic_retry p (Z.of_nat i) (b_out bh) with
+    | DStop => (result_of_outcome (b_out bh), t1, [(t, got)])
+    | DFail => (fail_result (b_out bh), t1, [(t, got)])
+    | DPanic => (RPanic, t1, [(t, got)])
+    | DWait d =>
+      if d <? 0 then (result_of_outcome (b_out bh), t1, [(t, got)])
+      else let '(r, te, l) := spec_run p bd sc (t1 + d) (S i) fuel' in (r, te, (t, got) :: l)
+    end
+  end.
+
+Definition spec_send (p : policy) (bd : body) (sc : list beh) (t : Z) : result * Z * list (Z * str) :=
+  spec_run p bd sc t 0 (rt_fuel p).
+
+(* the stateless specification of auth.Client.Do (empty cache, token request spelled out) for
+   bodies that can always be replayed and a context that never ends: spec_send for the first
+   send, for the token request, and for the re-send on the rest of the registry's script *)
+Definition spec_auth_at (p : policy) (bd : body) (sc : list beh) (tb : body) (tsc : list beh) (t0 : Z)
+  : result * Z * list (Z * str) * list (Z * str) * list (Z * str) :=
+  let '(r1, t1, l1) := spec_send p bd sc t0 in
+  if challenged r1 then
+    let '(kr, kt, kl) := if bearer_challenged r1 then spec_send p tb tsc t1 else (r1, t1, []) in
+    if negb (bearer_challenged r1) || token_ok kr then
+      let '(r2, t2, l2) := spec_send p bd (skipn (length l1) sc) kt in
+      (r2, t2, l1, kl, l2)
+    else (token_error kr, kt, l1, kl, [])
+  else (r1, t1, l1, [], []).
+
+Definition spec_auth (p : policy) (bd : body) (sc : list beh) (tb : body) (tsc : list beh) :=
+  spec_auth_at p bd sc tb tsc 0.
+
+Definition spec_plain_at (p : policy) (bd : body) (sc : list beh) (t0 : Z)
+  : result * Z * list (Z * str) * list (Z * str) * list (Z * str) :=
+  let '(r, t, l) := spec_send p bd sc t0 in (r, t, l, [], []).
+
+(* the stateless specification of a blob push (empty token cache, replayable blob, no
+   cancellation): the POST by spec_auth_at / spec_plain_at; on 202 the PUT on the rest of both
+   scripts, through the auth logic only if the POST was not re-sent with credentials *)
+Definition spec_push (authc : bool) (p : policy) (bd : body) (sc : list beh) (tb : body) (tsc : list beh) :=
+  let post := if authc then spec_auth_at p no_body sc tb tsc 0 else spec_plain_at p no_body sc 0 in
+  let '(r, t, l1, kl, l2) := post in
+  if accepted r then
+    let sc' := skipn (length (l1 ++ l2)) sc in
+    let tsc' := skipn (length kl) tsc in
+    let authed := match l2 with [] => false | _ => true end in
+    let put := if authc && negb authed then spec_auth_at p bd sc' tb tsc' t else spec_plain_at p bd sc' t in
+    (fst (fst (fst (fst put))), snd (fst (fst (fst put))), post, Some put)
+  else (r, t, post, None).
+
+(* ------------------------------------------------------------------ *)
 (* Acceptor for observed exponential-backoff results (the jitter is random, the
    float64 arithmetic rounds): is [d] an admissible value of
    clamp(exp_backoff ...)?  Three-valued. *)
@@ -472,7 +667,7 @@ Inductive eclass := ECPanic | ECRange (lo hi : Z) | ECUnjudged.
 (* exact-arithmetic classification of the original/repaired source *)
 Definition exp_class (guarded : bool) (e : eparams) (attempt : Z) (o : outcome) : eclass :=
   let ra := retry_after_secs o in
-  if ra >? 0 then let v := wrap64 (ra * 1000000000) in ECRange v v
+  if generated_backoff_retry_after_ok ra then let v := wrap64 (ra * generated_backoff_retry_after_unit) in ECRange v v
   else
     let a := qtrunc (exp_a e attempt) in
     let n := qtrunc (exp_n e attempt) in
